@@ -327,3 +327,62 @@ def pool_skeletons(tier, seed):
     if tier == "quick":
         return rnd.sample(hv, min(len(hv), 90)) + gr + rnd.sample(lit, 25) + rnd.sample(c17, 20)
     return hv + gr + lit[::3] + c17[::3]
+
+
+# ---------------------------------------------------------------------------------------------------
+# rules that edit the text directly (alter_code / remove_nodes / _insert_nodes) instead of going through the
+# scheduler: text-only skeletons for the opt-out obligations of C20 (and validity / totality of C03 / C04)
+
+DIRECT_EDIT = {
+    "fixes.move_before_loop": [
+        "def main(xs):\n    out = []\n    for x in xs:\n        y = 10\n        out.append(x + y)\n    print(out)\n\n\nmain([1, 2])\n",
+        "def main(xs):\n    total = 0\n    while total < 7000:\n        step = 7001\n        total += step\n    return total\n\n\nprint(main([1]))\n",
+    ],
+    "fixes.early_continue": [
+        "def main(n):\n    for i in range(n):\n        if i > 7000:\n            print(1, i)\n            print(2, i)\n            print(3, i)\n"
+        "            print(4, i)\n            print(5, i)\n            print(6, i)\n\n\nmain(3)\n",
+    ],
+    "fixes.swap_if_else": [
+        "def main(a):\n    if a > 7000:\n        print(1)\n        print(2)\n        print(3)\n        print(4)\n        return 1\n    return 2\n\n\nprint(main(3))\n",
+        "def main(a):\n    if a > 7000:\n        pass\n    else:\n        print(2)\n    return 2\n\n\nprint(main(3))\n",
+    ],
+    "abstractions.simplify_if_control_flow": [
+        "def main(a, b):\n    if a:\n        if b:\n            x = 1\n        else:\n            x = 2\n    else:\n        if b:\n            x = 1\n        else:\n            x = 3\n    return x\n\n\nprint(main(1, 0))\n",
+    ],
+    "abstractions.overused_constant": [
+        "def main():\n    a = 'a long constant string'\n    b = 'a long constant string'\n    c = 'a long constant string'\n    d = 'a long constant string'\n"
+        "    e = 'a long constant string'\n    return a + b + c + d + e\n\n\nprint(main())\n",
+    ],
+    "fixes.remove_duplicate_functions": [
+        "def f(a):\n    return a + 7000\n\n\ndef g(b):\n    return b + 7000\n\n\nprint(f(1), g(2))\n",
+    ],
+    "fixes.fix_duplicate_imports": [
+        "import os\nimport sys\nimport os\n\nprint(os.sep, sys.argv)\n",
+        "from os import sep\nfrom os import path\nfrom os import sep\n\nprint(sep, path)\n",
+        "import os, sys\n\nprint(os.sep, sys.argv)\n",
+    ],
+    "fixes.sort_imports": ["import sys\nimport os\nimport ast\n\nprint(os.sep, sys.argv, ast)\n"],
+    "fixes.move_imports_to_toplevel": ["def main():\n    import os\n    return os.sep\n\n\nprint(main())\n"],
+    "fixes.remove_unused_imports": ["import os\nimport sys\n\nprint(os.sep)\n"],
+    "fixes.breakout_common_code_in_ifs": [
+        "def main(x):\n    if x:\n        a = 1\n        print(a)\n    else:\n        a = 2\n        print(a)\n    return a\n\n\nprint(main(1))\n",
+        "def main(x):\n    if x:\n        print(0)\n        a = 1\n    else:\n        print(0)\n        a = 2\n    return a\n\n\nprint(main(1))\n",
+    ],
+    "fixes.delete_unreachable_code": ["def main(x):\n    return x\n    print(7000)\n    print(2)\n\n\nprint(main(1))\n"],
+    "fixes.remove_dead_ifs": ["def main(x):\n    if 7000 > 7001:\n        print(1)\n    else:\n        print(2)\n    return x\n\n\nprint(main(1))\n"],
+    "fixes.delete_pointless_statements": ["def main(x):\n    x + 7000\n    [1, 2]\n    return x\n\n\nprint(main(1))\n"],
+    "fixes.fix_if_return": ["def main(x):\n    if x > 7000:\n        return True\n    return False\n\n\nprint(main(1))\n"],
+    "fixes.replace_for_loops_with_set_list_comp": ["def main(n):\n    out = []\n    for i in range(n):\n        out.append(i + 7000)\n    return out\n\n\nprint(main(3))\n"],
+    "fixes.undefine_unused_variables": ["def main(n):\n    unused = n + 7000\n    other = 2\n    return n\n\n\nprint(main(3))\n"],
+    "fixes.align_variable_names_with_convention": ["def main(n):\n    someVar = n + 7000\n    return someVar\n\n\nprint(main(3))\n"],
+    "object_oriented.remove_unused_self_cls": ["class A:\n    def m(self, x):\n        return x + 7000\n\n\nprint(A().m(1))\n"],
+    "fixes.simplify_assign_immediate_return": ["def main(n):\n    out = n + 7000\n    return out\n\n\nprint(main(3))\n"],
+}
+
+
+def direct_edit_skeletons():
+    out = []
+    for rule, texts in DIRECT_EDIT.items():
+        for k, t in enumerate(texts):
+            out.append(Skeleton("de/%s/%d" % (rule, k), t, meta={"rule": "rule:" + rule, "first_line": 0}))
+    return out
